@@ -51,8 +51,8 @@ open Log LogRt Generated
         { st := { st with holders := st.holders ++ [c] }, tmp := t ++ [.moved st.holders.length] }) := by
   simp [withHolder, StateT.run]
 
-theorem go_getOrDefault_eq (F : Bool) (s : State) (ctx : Ctx) :
-    (GoLog.getOrDefault (zapModel F) ctx).run s =
+theorem go_getOrDefault_eq (F : Bool) (fuel : Nat) (s : State) (ctx : Ctx) :
+    (GoLog.getOrDefault fuel (zapModel F) ctx).run s =
       match ctx with
       | some h => pure ((.addr h, true), s)
       | none => pure ((.tmp s.tmp.length, false), { s with tmp := s.tmp ++ [.holds s.st.global] }) := by
@@ -77,18 +77,18 @@ def strip {α : Type} (r : α × State) : α × St := (r.1, r.2.st)
 /-- the harness gives the context a call returns the next context number -/
 def record (r : Ctx × State) : St := { r.2.st with ctxs := r.2.st.ctxs ++ [r.1] }
 
-theorem go_log_eq (F : Bool) (s : St) (tmp : List Cell) (c : Nat) :
-    strip <$> (GoLog.Log (zapModel F) (holderOf s.ctxs c)).run { st := s, tmp := tmp } = pure (logOf s c, s) := by
+theorem go_log_eq (F : Bool) (fuel : Nat) (s : St) (tmp : List Cell) (c : Nat) :
+    strip <$> (GoLog.Log fuel (zapModel F) (holderOf s.ctxs c)).run { st := s, tmp := tmp } = pure (logOf s c, s) := by
   simp only [GoLog.Log, StateT.run_bind, go_getOrDefault_eq, logOf, Log.getOrDefault]
   cases holderOf s.ctxs c <;> simp [strip, heapLoad]
 
-theorem go_initLogger_eq (F : Bool) (s : St) (tmp : List Cell) (c : Nat) (fs : List Field) :
-    record <$> (GoLog.InitLogger (zapModel F) (holderOf s.ctxs c) fs).run { st := s, tmp := tmp } =
+theorem go_initLogger_eq (F : Bool) (fuel : Nat) (s : St) (tmp : List Cell) (c : Nat) (fs : List Field) :
+    record <$> (GoLog.InitLogger fuel (zapModel F) (holderOf s.ctxs c) fs).run { st := s, tmp := tmp } =
       pure (step F s (.init c fs)) := by
   simp [GoLog.InitLogger, record, step, newCtx, zapModel]
 
-theorem go_childLogger_eq (F : Bool) (s : St) (tmp : List Cell) (c : Nat) (fs : List Field) :
-    record <$> (GoLog.ChildLogger (zapModel F) (holderOf s.ctxs c) fs).run { st := s, tmp := tmp } =
+theorem go_childLogger_eq (F : Bool) (fuel : Nat) (s : St) (tmp : List Cell) (c : Nat) (fs : List Field) :
+    record <$> (GoLog.ChildLogger fuel (zapModel F) (holderOf s.ctxs c) fs).run { st := s, tmp := tmp } =
       pure (step F s (.child c fs)) := by
   simp only [GoLog.ChildLogger, StateT.run_bind, go_getOrDefault_eq, step, Log.getOrDefault]
   cases holderOf s.ctxs c <;> simp [record, newCtx, zapModel, heapLoad]
@@ -156,8 +156,8 @@ theorem go_wrapper_check_emit (z : Zap) (c : Core) (m lvl : Level) :
 /-- one call of the translated package on the context numbered `c` (garbage dropped between calls:
 the obligations above hold for every garbage) -/
 def goStep (F : Bool) (fuel : Nat) (s : St) : Op → Go.M St
-  | .init c fs => record <$> (GoLog.InitLogger (zapModel F) (holderOf s.ctxs c) fs).run { st := s }
-  | .child c fs => record <$> (GoLog.ChildLogger (zapModel F) (holderOf s.ctxs c) fs).run { st := s }
+  | .init c fs => record <$> (GoLog.InitLogger fuel (zapModel F) (holderOf s.ctxs c) fs).run { st := s }
+  | .child c fs => record <$> (GoLog.ChildLogger fuel (zapModel F) (holderOf s.ctxs c) fs).run { st := s }
   | .derive c => pure { s with ctxs := s.ctxs ++ [holderOf s.ctxs c] }
   | .withFields c fs => record <$> (GoLog.WithFields fuel (zapModel F) (holderOf s.ctxs c) fs).run { st := s }
   | .setLevel c l => record <$> (GoLog.SetLevel fuel (zapModel F) (holderOf s.ctxs c) l).run { st := s }
@@ -166,13 +166,13 @@ def goStep (F : Bool) (fuel : Nat) (s : St) : Op → Go.M St
 def goRun (F : Bool) (fuel : Nat) (s : St) (ops : List Op) : Go.M St := ops.foldlM (goStep F fuel) s
 
 /-- `Log(ctx_c)` -/
-def goLog (F : Bool) (s : St) (c : Nat) : Go.M Core :=
-  (·.1) <$> (GoLog.Log (zapModel F) (holderOf s.ctxs c)).run { st := s }
+def goLog (F : Bool) (fuel : Nat) (s : St) (c : Nat) : Go.M Core :=
+  (·.1) <$> (GoLog.Log fuel (zapModel F) (holderOf s.ctxs c)).run { st := s }
 
 theorem go_step_eq (F : Bool) (fuel : Nat) (s : St) (op : Op) : goStep F (fuel + 1) s op = pure (step F s op) := by
   cases op with
-  | init c fs => exact go_initLogger_eq F s [] c fs
-  | child c fs => exact go_childLogger_eq F s [] c fs
+  | init c fs => exact go_initLogger_eq F _ s [] c fs
+  | child c fs => exact go_childLogger_eq F _ s [] c fs
   | derive c => rfl
   | withFields c fs => exact go_withFields_eq F fuel s [] c fs
   | setLevel c l => exact go_setLevel_eq F fuel s [] c l
@@ -187,15 +187,15 @@ theorem go_run_eq (F : Bool) (fuel : Nat) (s : St) (ops : List Op) :
     simp only [goRun, List.foldlM_cons, go_step_eq, pure_bind, run, List.foldl_cons] at ih ⊢
     exact ih _
 
-theorem go_logOf_eq (F : Bool) (s : St) (c : Nat) : goLog F s c = pure (logOf s c) := by
-  have := congrArg (Functor.map (·.1)) (go_log_eq F s [] c)
+theorem go_logOf_eq (F : Bool) (fuel : Nat) (s : St) (c : Nat) : goLog F fuel s c = pure (logOf s c) := by
+  have := congrArg (Functor.map (·.1)) (go_log_eq F fuel s [] c)
   simpa [goLog, strip, Functor.map_map] using this
 
 /-- C18 (sequential clause) for the translated code: what `Log(ctx).Log(lvl, …)` emits after any
 call sequence through the translated functions is what the specification says. -/
 theorem go_log_emit_spec (fuel : Nat) (g : Core) (ops : List Op) (c : Nat) (lvl : Level) :
     (do let s ← goRun true (fuel + 1) (initSt g) ops
-        let l ← goLog true s c
+        let l ← goLog true (fuel + 1) s c
         pure (emit l lvl)) = pure (((specInit g).run ops).emits c lvl) := by
   simp only [go_run_eq, go_logOf_eq, pure_bind, log_emit_spec]
 
